@@ -288,6 +288,22 @@ static std::string viewState(World& w) {
     }
     return o;
 }
+static long idxOf(DOMNode* c) { long i = 0; for (DOMNode* p = c->getPreviousSibling(); p && i < 100000; p = p->getPreviousSibling()) i++; return i; }
+// document order of two boundary points in one tree (computed with the child/parent getters only): -1, 0, 1
+static int cmpPoints(DOMNode* an, long ao, DOMNode* bn, long bo) {
+    if (an == bn) return ao < bo ? -1 : ao > bo ? 1 : 0;
+    std::vector<DOMNode*> aa, ba;
+    for (DOMNode* x = an; x; x = x->getParentNode()) aa.push_back(x);
+    for (DOMNode* x = bn; x; x = x->getParentNode()) ba.push_back(x);
+    for (size_t i = 1; i < ba.size(); i++) if (ba[i] == an) { long k = 0; DOMNode* c = ba[i - 1]; for (DOMNode* y = an->getFirstChild(); y && y != c; y = y->getNextSibling()) k++; return ao <= k ? -1 : 1; }
+    for (size_t i = 1; i < aa.size(); i++) if (aa[i] == bn) { long k = 0; DOMNode* c = aa[i - 1]; for (DOMNode* y = bn->getFirstChild(); y && y != c; y = y->getNextSibling()) k++; return k < bo ? -1 : 1; }
+    size_t i = aa.size(), j = ba.size();
+    while (i > 0 && j > 0 && aa[i - 1] == ba[j - 1]) { i--; j--; }
+    if (i == 0 || j == 0 || i == aa.size()) return 0;
+    DOMNode* common = aa[i]; DOMNode* ca = aa[i - 1]; DOMNode* cb = ba[j - 1];
+    for (DOMNode* y = common->getFirstChild(); y; y = y->getNextSibling()) { if (y == ca) return -1; if (y == cb) return 1; }
+    return 0;
+}
 static void checkRangeInvariants(World& w) {
     for (size_t i = 0; i < w.views.size(); i++) {
         View& v = w.views[i]; if (v.dead || v.kind != 'R') continue;
@@ -308,6 +324,7 @@ static void checkRangeInvariants(World& w) {
             DOMNode* rs = sc; while (rs->getParentNode()) rs = rs->getParentNode();
             DOMNode* re = ec; while (re->getParentNode()) re = re->getParentNode();
             if (rs != re) w.fail(me + ": range boundary points have different root containers");
+            else if (cmpPoints(sc, (long)so, ec, (long)eo) > 0) w.fail(me + ": range start is after its end");
         }
         catch (const DOMException&) {}
     }
